@@ -181,6 +181,9 @@ void h_search(void)
   size_t PENDING = nondet_size_t(), HS = nondet_size_t(), NQ = nondet_size_t();
   __CPROVER_assume(OP <= 2 && HASCB <= 1 && SSLON <= 1 && CLOSED0 <= 1 && INTABLE <= 1 && ORIGIN <= 3 && PENDING <= 1 && HS <= 1 && NQ <= 1);
   IORA_TRUE = 1;
+  /* statics are nondeterministic (--nondet-static): the concrete scenario starts every ghost at 0 */
+  G_errno = 2; G_seq = 0; G_cb_calls = 0; G_cb_seq = 0; G_erase_calls = 0; G_erase_seq = 0; G_fdclose_calls = 0; G_fdclose_seq = 0; G_sslshut_calls = 0; G_sslshut_seq = 0;
+  G_sslfree_calls = 0; G_sslfree_seq = 0; G_sslshut_arg = NULL; G_sslfree_arg = NULL; G_ep_dels = 0; G_ep_mods = 0; G_ep_seq = 0; G_tcancel_calls = 0; G_tcancel_tid_calls = 0;
   TcpEngine E = {0}; TcpEngine *self = &E;
   Session *s = malloc(sizeof(Session)); __CPROVER_assume(s != NULL); Session z = {0}; *s = z;
   Session *o = malloc(sizeof(Session)); __CPROVER_assume(o != NULL); *o = z; o->id = 7;
